@@ -827,6 +827,7 @@ func toksOf(ls []lit2) []tok {
 }
 
 func main() {
+	core.SuperviseSelf("C03") // a runtime fatal error inside the code under test is a finding, not a harness error
 	r := core.Start("C03")
 	// quick: all patterns of <=4 tokens over the full literal alphabet plus the 5-token patterns over
 	// the empty literal only (delimiters and parameters); thorough: all patterns of <=5 tokens, one more value.
